@@ -76,7 +76,7 @@ Definition gt_getnum (s : bytes) (fixed : bool) : option (Z * bytes) :=
   end.
 
 (* skip(value, prefix) for a prefix without spaces *)
-Fixpoint gt_skip (value prefix : bytes) : option bytes :=
+Fixpoint gt_skip (value prefix : bytes) {struct prefix} : option bytes :=
   match prefix with
   | [] => Some value
   | p :: prefix' =>
